@@ -134,6 +134,10 @@ def judge(ctx: core.Ctx, case: dict[str, Any]) -> None:
         main = case["main"]
         reps = 2 if "caching" in kind else 1  # second round hits the cache
         for rep in range(reps):
+            kw = dict(case.get("load_kwargs") or {})
+            lg = (case.get("load_globals") or [None, None])[rep]
+            if lg is not None:
+                kw["globals"] = dict(lg)  # template globals given with the request (each round its own: the second round hits the cache)
             o_s = drv.call(env_s.get_template, main, **kw)
             o_a = drv.call_async(env_a.get_template_async, main, **kw)
             ctx.count("load_pairs")
@@ -157,6 +161,7 @@ def judge(ctx: core.Ctx, case: dict[str, Any]) -> None:
                 ("str", _ADDR.sub("", str(ts)), _ADDR.sub("", str(ta))),
                 ("path", str(ts.path), str(ta.path)),
                 ("matter", dict(ts.matter), dict(ta.matter)),
+                ("globals", dict(ts.globals), dict(ta.globals)),
             ):
                 if fs != fa:
                     ctx.evaluations += 1
@@ -260,9 +265,10 @@ def gen_case(rng, ctx) -> dict[str, Any]:
     data["pname"] = rng.choice(sorted(partials) or ["nope"])
     env = {"extra": extra, "flags": flags, "mode": rng.choice(["strict", "strict", "lax", "warn"]), "autoescape": rng.random() < 0.2,
            "undefined": rng.choice(["default", "default", "strict"]), "strict_filters": rng.random() < 0.9}
-    if rng.random() < 0.2:
+    if rng.random() < 0.35:
         env["globals"] = {"n": 7, "g": "env-global"}
-    return {"templates": templates, "main": main_name, "data": V.enc(data), "loader": kind, "env": env, "load_kwargs": load_kwargs,
+    lgs = [rng.choice([None, None, {"g": "G1", "gg": 1}, {"g": "G2"}, {}]) for _ in range(2)]
+    return {"templates": templates, "main": main_name, "data": V.enc(data), "loader": kind, "env": env, "load_kwargs": load_kwargs, "load_globals": lgs,
             "ntags": len(meta.tags), "analyze": rng.random() < 0.7}
 
 
